@@ -18,7 +18,8 @@ Proof.
   - rewrite !flat_e_text. f_equal. now apply list_eqb_flat.
   - apply andb_prop in E as [E1 E2]. destruct (str_eqb_spec n name); [subst|discriminate].
     rewrite !flat_e_tag. do 2 f_equal. now apply list_eqb_flat.
-  - apply andb_prop in E as [E1 E2]. destruct (str_eqb_spec u url); [subst|discriminate].
+  - apply andb_prop in E as [E1 E2]. apply andb_prop in E1 as [E0 E1]. apply Bool.eqb_prop in E1.
+    destruct (str_eqb_spec u url); [subst|discriminate].
     rewrite !flat_e_href. do 2 f_equal. now apply list_eqb_flat.
   - rewrite !flat_e_prot. do 2 f_equal. now apply list_eqb_flat.
 Qed.
@@ -28,15 +29,8 @@ Proof. induction 1 as [|p ps Hp _ IH]; cbn; [reflexivity|]. now rewrite Hp, IH. 
 
 Lemma rt_eqb_refl a : rt_eqb a a = true.
 Proof.
-  induction a using rt_ind'; cbn [rt_eqb]; rewrite ?str_eqb_refl; cbn [andb];
+  induction a using rt_ind'; cbn [rt_eqb]; rewrite ?str_eqb_refl, ?Bool.eqb_reflx; cbn [andb];
     try reflexivity; now apply list_eqb_refl.
-Qed.
-
-(* == does not see HRef.external (F10): equal texts with different renderings *)
-Lemma eq_exact_refuted : exists a b, rt_eqb a b = true /\ flat a <> flat b.
-Proof.
-  exists (RHRef [117%N] true [RStr [97%N]]), (RHRef [117%N] false [RStr [97%N]]).
-  split; [reflexivity|]. vm_compute. discriminate.
 Qed.
 
 (* regrouping: an empty part, and the nesting of parts inside a Text part, never matter for
